@@ -113,7 +113,12 @@ pub fn run_config(report: &mut Report, c: &Config, verbose: bool) {
     let target = make_target(c.target, &mut trng);
     let start = start_point(&target, &mut trng);
     let dens = Logged::new(target, false);
-    let patches: Vec<(&str, J)> = c.patches.iter().map(|(p, v)| (p.as_str(), v.clone())).collect();
+    let mut patches: Vec<(&str, J)> = c.patches.iter().map(|(p, v)| (p.as_str(), v.clone())).collect();
+    if c.seed % 3 == 0 && !c.preset.is_nuts() {
+        // the configurations with a forced divergence next to the end of warmup: a failed step must end the draw
+        // instead of being retried with a smaller step
+        patches.push(("dynamic_step_size", json!(false)));
+    }
     let replay = cfg_json(c);
     let pname = c.preset.name();
 
